@@ -148,9 +148,14 @@ class Prover(object):
                     useful = True
             if not useful:
                 continue
-            for m in (1, 2):
+            ms = [1]
+            for a, c in gt.items():
+                fc = fa.get(a, 0)
+                if fc and c % fc == 0 and c // fc > 1 and c // fc not in ms:
+                    ms.append(c // fc)        # the multiple of F that cancels atom a in G
+            if 2 not in ms and any(abs(c) > 1 for _, c in G.t):
+                ms.append(2)
+            for m in ms[:4]:
                 if self.prove(G - F.scale(m), depth - 1, used + (i,)):
                     return True
-                if m == 1 and not any(abs(c) > 1 for _, c in G.t):
-                    break
         return False
